@@ -141,6 +141,8 @@ type Unit struct {
 	frozenHeaps   map[string]*types.Map // pointee heaps of "frozen" registries -> the registry's map type
 	rebinds       []string // clause locals bound by type after a rename, anchors and invariants found in inlined helpers (reported in the evidence)
 	globalAddr    map[string]string // addresses of package variables whose address was taken
+	newLoopAt     int      // 1 + position in the command stream of the first new loop without invariant
+	newLoops      []string
 	calleeStaleAt int      // 1 + position in the command stream of the first call whose postcondition could not be assumed
 	calleeStale   []string // postconditions of callees that could not be assumed because they no longer type-check
 	preStale      bool     // a precondition of the unit's contract could not be evaluated: the body was verified without it
@@ -375,6 +377,9 @@ type frame struct {
 	parent   *frame          // the frame this one is inlined into (nil for the unit's own function)
 	via      ssa.Instruction // the call instruction of parent that was inlined
 	cur      ssa.Instruction // instruction being executed
+	pendingNewLoop bool
+	loopMapDone    bool
+	loopMapping    map[int]int // recorded loop ordinal -> current loop ordinal, when the loop structure changed
 }
 
 func (fr *frame) obName(kind, detail string) string {
